@@ -18,6 +18,10 @@ H = lambda v: ("-%x" % -v) if v < 0 else ("%x" % v)
 def leaf_scripts(tier, rng):
     out = []
     starts = [0x10003, 0x10002, 0x10001, 0x10000, 0xffff, 5, 3, 2, 1, 0, (1 << 48) - 1, 1 << 48]
+    # every bit position of the 64-bit budget: values whose low 16 / 32 bits are (almost) zero while higher bits are set (a
+    # threshold test done in a narrower type, or with a mask, goes wrong exactly there), and the ends of the range
+    starts += [(1 << b) + d for b in (17, 24, 31, 32, 33, 40, 47, 48, 56, 63) for d in (0, 1, 2, 0xffff, 0x10000)]
+    starts += [3 << 32, (3 << 32) + 2, (1 << 64) - 1, (1 << 64) - 0x10000, (1 << 63) - 1]
     for s in starts:
         for st in (0, 1, 2):
             n = 8 if tier == "quick" else 40
@@ -26,7 +30,8 @@ def leaf_scripts(tier, rng):
     for v in (0, 1, 0xffff, 0x10000, 0x10001, (1 << 48) - 1, (1 << 64) - 1):
         out.append((f"klset-{v:x}", f"kl_set {H(v)}\nkl_upd\nkl_upd\n"))
     for i in range(20 if tier == "quick" else 400):
-        s = rng.choice([rng.randrange(0, 40), 0x10000 + rng.randrange(-20, 20), rng.randrange(1 << 48)])
+        s = rng.choice([rng.randrange(0, 40), 0x10000 + rng.randrange(-20, 20), rng.randrange(1 << 48),
+                        (rng.randrange(1, 1 << 16) << rng.choice([16, 32, 48])) + rng.randrange(0, 40)])
         n = rng.randrange(1, 60)
         out.append((f"klr-{i}", "\n".join([f"kl_poke {H(s)} 0"] + ["kl_upd"] * n) + "\n"))
     return out
@@ -101,7 +106,7 @@ def api_scripts(tier, rng, n=None):
             L.append(f"peek 2 {1 if wildcard else 0} {H(s)}"); L.append(f"# RX {s:x} {mi}")
         for s in ssrcs:
             traffic(s)            # creates the clones
-        start = rng.choice([0x10003, 0x10002, 0x10001, 0x10000, 4, 3, 2, 1])
+        start = rng.choice([0x10003, 0x10002, 0x10001, 0x10000, 4, 3, 2, 1, (1 << 32) + 2, (3 << 32) + 2, (1 << 33) + 0x10001, (1 << 40) + 1])
         which = 1 if wildcard else 0
         L.append(f"poke_limit 1 {which} {H(ssrcs[0])} 0 {H(start)} 0")
         # the receiver's budget may also be the smaller one, so that srtp_unprotect itself reaches the hard limit
